@@ -215,7 +215,7 @@ class C06:
                     if isinstance(v, bool) or not isinstance(v, (int, float)) or v != want:
                         self._regions_n = n_regions
                         return (False, f"gives {v!r} for the time extents {where}; the intersection-over-union of the two intervals is {want!r}", (_E, where))
-            grid = [k / 10 for k in range(0, 13)]
+            grid = [k / 10 for k in (0, 1, 2, 3, 6, 7, 9, 11, 12)]  # (interpreting is slower than folding terms: a coarser decimal grid)
             for s1, e1, s2, e2 in itertools.product(grid, repeat=4):
                 if s1 > e1 or s2 > e2 or (e1 - s1) + (e2 - s2) == 0:
                     continue
